@@ -26,6 +26,7 @@ cdef class AsyncListener:
     cdef public cython.bytes data
     cdef public double last_time
     cdef public DNSIncoming last_message
+    cdef public object last_addrs
     cdef public object transport
     cdef public object sock_description
     cdef public cython.dict _deferred
